@@ -306,6 +306,10 @@ def pretty_counter(counter, ctx):
 @register_pretty('enum.Enum')
 def pretty_enum(value, ctx):
     cls = type(value)
+    if value.name not in cls.__members__:
+        # Flag combinations ('R|W') and unnamed flag values
+        # have no attribute on the class.
+        return pretty_call_alt(ctx, cls, args=(value.value, ))
     return classattr(cls, value.name)
 
 
